@@ -440,9 +440,20 @@ theorem newProjection_FInv : FInv newProjection :=
 theorem Inv_of_FInv_nil (h : List Bytes → UInt64) (p : Proj) (hf : FInv p) (hn : p.nodes = []) : Inv h p :=
   ⟨hf, ⟨by simp [hn], by simp [hn], by simp [hn], by simp [hn]⟩⟩
 
+/-- A successful `Parse` is the walk over the parts. -/
+theorem parse_ok (pa : Parser) (specs : List Spec) (pa' : Parser) (s : Proj)
+    (hm : pa.parse specs = (pa', .ok s)) : parseParts pa newProjection specs = (pa', .ok s) := by
+  unfold Parser.parse at hm
+  cases hh : parseParts pa newProjection specs with
+  | mk p1 r1 =>
+    rw [hh] at hm
+    cases r1 with
+    | ok s1 => simpa using hm
+    | error e => simp at hm
+
 theorem parse_inv (h : List Bytes → UInt64) (pa : Parser) (specs : List Spec) (pa' : Parser) (s : Proj)
     (hm : pa.parse specs = (pa', .ok s)) : Inv h s := by
-  obtain ⟨hf, hn⟩ := parseParts_FInv specs pa newProjection pa' s newProjection_FInv hm
+  obtain ⟨hf, hn⟩ := parseParts_FInv specs pa newProjection pa' s newProjection_FInv (parse_ok _ _ _ _ hm)
   exact Inv_of_FInv_nil h s hf (by rw [hn]; rfl)
 
 theorem parseWithUnit_inv (h : List Bytes → UInt64) (pa : Parser) (specs : List Spec) (pa' : Parser) (s : Proj)
@@ -459,7 +470,7 @@ theorem parseWithUnit_inv (h : List Bytes → UInt64) (pa : Parser) (specs : Lis
         have := hi.n.len; cases hn : s1.nodes with
         | nil => rfl
         | cons a b =>
-          obtain ⟨hf, hnodes⟩ := parseParts_FInv specs pa newProjection p1 s1 newProjection_FInv heq
+          obtain ⟨hf, hnodes⟩ := parseParts_FInv specs pa newProjection p1 s1 newProjection_FInv (parse_ok _ _ _ _ heq)
           rw [hnodes] at hn; simp [newProjection] at hn))
   · rename_i hne
     cases hp : pa.parse specs with
